@@ -374,3 +374,76 @@ Proof.
   - intros n Hn. destruct (hexdigit_facts n Hn) as (_ & -> & _). reflexivity.
   - constructor; [|constructor]. now rewrite Hc.
 Qed.
+
+(* ---- separators of any length: no hexadecimal digit in them, and no whitespace character other than the space
+   (from_hex turns every whitespace character of the TEXT into a space before it looks for the separator, so a separator holding a tab is
+   never found again - which the real from_hex shows too) ---- *)
+Definition sep_ok_multi (sep : list Z) : Prop :=
+  sep <> [] /\ Forall (fun c => hexval c = None /\ (is_ws c = true -> c = 32)) sep.
+
+Lemma repl_skip sep : forall u k rest, length u = k -> repl sep k (u ++ rest) = repeat 32 k ++ repl sep 0 rest.
+Proof.
+  induction u as [|x u IH]; intros k rest Hk; cbn in Hk; subst k; [reflexivity|].
+  cbn [app repl length repeat]. f_equal. now apply IH.
+Qed.
+Lemma prefixb_self sep rest : prefixb sep (sep ++ rest) = true.
+Proof. induction sep as [|c s IH]; [reflexivity|]. cbn. now rewrite Z.eqb_refl, IH. Qed.
+Lemma prefixb_self_cons c s rest : prefixb (c :: s) (c :: s ++ rest) = true.
+Proof. exact (prefixb_self (c :: s) rest). Qed.
+Lemma prefixb_hexdigit c s h r : hexval c = None -> (exists v, hexval h = Some v) -> prefixb (c :: s) (h :: r) = false.
+Proof.
+  intros Hc [v Hh]. cbn. destruct (c =? h) eqn:E; [|reflexivity]. apply Z.eqb_eq in E. congruence.
+Qed.
+Lemma repl_sep c s rest : repl (c :: s) 0 ((c :: s) ++ rest) = repeat 32 (length (c :: s)) ++ repl (c :: s) 0 rest.
+Proof.
+  cbn [app]. cbn [repl]. change (c :: s ++ rest) with ((c :: s) ++ rest). rewrite prefixb_self.
+  cbn [length Nat.sub repeat app]. f_equal. rewrite Nat.sub_0_r. now apply repl_skip.
+Qed.
+
+Lemma repl_hexdump c s bs :
+  hexval c = None -> Forall (fun b => 0 <= b <= 255) bs ->
+  repl (c :: s) 0 (join (c :: s) (map hex_byte bs)) = join (repeat 32 (length (c :: s))) (map hex_byte bs).
+Proof.
+  intros Hc Hb. induction Hb as [|b r Hb1 Hr IH]; [reflexivity|].
+  assert (Hhi : 0 <= b / 16 < 16) by (Z.to_euclidean_division_equations; lia).
+  assert (Hlo : 0 <= b mod 16 < 16) by (Z.to_euclidean_division_equations; lia).
+  destruct (hexdigit_facts _ Hhi) as (V1 & _ & _). destruct (hexdigit_facts _ Hlo) as (V2 & _ & _).
+  cbn [map]. destruct r as [|b2 r'].
+  - cbn [join map]. unfold hex_byte. cbn [repl]. rewrite (prefixb_hexdigit c s _ _ Hc (ex_intro _ _ V1)).
+    cbn [repl]. rewrite (prefixb_hexdigit c s _ _ Hc (ex_intro _ _ V2)). reflexivity.
+  - rewrite !join_cons by discriminate. unfold hex_byte at 1 3. cbn [app]. cbn [repl].
+    rewrite (prefixb_hexdigit c s _ _ Hc (ex_intro _ _ V1)). cbn [repl].
+    rewrite (prefixb_hexdigit c s _ _ Hc (ex_intro _ _ V2)).
+    rewrite prefixb_self_cons. cbn [length Nat.sub repeat app]. rewrite Nat.sub_0_r, (repl_skip (c :: s) s (length s) _ eq_refl).
+    rewrite IH. reflexivity.
+Qed.
+
+Lemma map_fix_join (f : Z -> Z) sep bs :
+  Forall (fun b => 0 <= b <= 255) bs -> (forall n, 0 <= n < 16 -> f (hexdigit n) = hexdigit n) -> Forall (fun c => f c = c) sep ->
+  map f (join sep (map hex_byte bs)) = join sep (map hex_byte bs).
+Proof.
+  intros Hb Hf Hs. assert (Hsep : map f sep = sep) by (induction Hs as [|c s Hc _ IH]; [reflexivity|cbn; now rewrite Hc, IH]).
+  induction Hb as [|b r Hb1 Hr IH]; [reflexivity|].
+  assert (Hhi : 0 <= b / 16 < 16) by (Z.to_euclidean_division_equations; lia).
+  assert (Hlo : 0 <= b mod 16 < 16) by (Z.to_euclidean_division_equations; lia).
+  cbn [map]. destruct r as [|b2 r'].
+  - cbn [join map]. unfold hex_byte. cbn [map]. now rewrite !Hf.
+  - rewrite join_cons by discriminate. rewrite !map_app, Hsep. rewrite IH. unfold hex_byte at 1 2. cbn [map]. now rewrite !Hf.
+Qed.
+
+Theorem hex_roundtrip_multi (T : Type) m sep (t : T) : valid m = true -> sep_ok_multi sep ->
+  from_hex (hex m sep) (Some sep) t = Ok (m, t).
+Proof.
+  intros Hv [Hne Hs]. unfold from_hex, hex. pose proof (enc_bytes m Hv) as Hb.
+  destruct sep as [|c s]; [congruence|].
+  rewrite map_fix_join; [|assumption| |].
+  - rewrite repl_hexdump; [|now inversion Hs as [|? ? [Hc _] _]|assumption].
+    assert (E : forall sp bs, join sp (map hex_byte bs) = norm (fun x => x) sp bs) by (intros; unfold norm; now rewrite map_id).
+    rewrite E, fromhex_norm; [now apply roundtrip_time|assumption|reflexivity|].
+    apply Forall_forall. intros x Hx. apply repeat_spec in Hx. subst x. reflexivity.
+  - intros n Hn. destruct (hexdigit_facts n Hn) as (_ & -> & _). reflexivity.
+  - eapply Forall_impl; [|exact Hs]. cbn. intros x [_ Hx]. destruct (is_ws x) eqn:E; [now rewrite (Hx eq_refl)|reflexivity].
+Qed.
+
+Example sep_ok_multi_examples : sep_ok_multi [45; 45] /\ sep_ok_multi [44; 32] /\ sep_ok_multi [45; 120; 45] /\ sep_ok_multi [32; 58; 32].
+Proof. repeat split; try discriminate; repeat constructor; try reflexivity; cbn; intros; try discriminate; try reflexivity. Qed.
